@@ -1,6 +1,918 @@
-//! c14 — stub, to be implemented
-use crate::report::Report;
+//! C14 — colour encodings and conversions are total, mutually consistent and round-trip.
+//!
+//! Every public conversion / encoding function of src/color.rs is executed over its whole (finite)
+//! input domain and each result is compared with an independent table model written below from the
+//! documented encodings (1 = white MSB-first bits, ACeP 4-bit codes and palette, two-plane
+//! tricolour). Panics are caught; the only accepted panic is `Color::from(u8)` for bytes > 1.
+use crate::json::J;
+use crate::prng::mix64;
+use crate::report::{par_run, Failure, Report};
 use crate::Ctx;
-pub fn run(_ctx: &Ctx) -> Report {
-    Report::new()
+use embedded_graphics_core::pixelcolor::raw::{RawU1, RawU2, RawU4};
+use embedded_graphics_core::pixelcolor::{BinaryColor, Rgb555, Rgb565, Rgb888};
+use embedded_graphics_core::prelude::*;
+use epd_waveshare::color::{Color, ColorType, OctColor, TriColor};
+use std::panic::{catch_unwind, AssertUnwindSafe};
+
+// ------------------------------------------------------------------------------------------------
+// independent tables
+// ------------------------------------------------------------------------------------------------
+
+const OCT: [OctColor; 8] = [
+    OctColor::Black,
+    OctColor::White,
+    OctColor::Green,
+    OctColor::Blue,
+    OctColor::Red,
+    OctColor::Yellow,
+    OctColor::Orange,
+    OctColor::HiZ,
+];
+const OCT_NAME: [&str; 8] = ["Black", "White", "Green", "Blue", "Red", "Yellow", "Orange", "HiZ"];
+/// ACeP seven-colour palette + the library's grey for HiZ, index = 4-bit code
+const PAL: [(u8, u8, u8); 8] = [
+    (0x00, 0x00, 0x00),
+    (0xff, 0xff, 0xff),
+    (0x00, 0xff, 0x00),
+    (0x00, 0x00, 0xff),
+    (0xff, 0x00, 0x00),
+    (0xff, 0xff, 0x00),
+    (0xff, 0x80, 0x00),
+    (0x80, 0x80, 0x80),
+];
+fn oct_idx(c: OctColor) -> usize {
+    match c {
+        OctColor::Black => 0,
+        OctColor::White => 1,
+        OctColor::Green => 2,
+        OctColor::Blue => 3,
+        OctColor::Red => 4,
+        OctColor::Yellow => 5,
+        OctColor::Orange => 6,
+        OctColor::HiZ => 7,
+    }
+}
+const BW: [Color; 2] = [Color::Black, Color::White];
+fn bw_name(c: Color) -> &'static str {
+    match c {
+        Color::Black => "Black",
+        Color::White => "White",
+    }
+}
+const TRI: [TriColor; 3] = [TriColor::Black, TriColor::White, TriColor::Chromatic];
+fn tri_name(c: TriColor) -> &'static str {
+    match c {
+        TriColor::Black => "Black",
+        TriColor::White => "White",
+        TriColor::Chromatic => "Chromatic",
+    }
+}
+
+fn h64(v: &[u64]) -> u64 {
+    let mut h = 0xC14u64;
+    for &x in v {
+        h = mix64(h ^ x.wrapping_mul(0x9E3779B97F4A7C15));
+    }
+    h
+}
+
+fn panic_msg(p: Box<dyn std::any::Any + Send>) -> String {
+    if let Some(s) = p.downcast_ref::<&str>() {
+        s.to_string()
+    } else if let Some(s) = p.downcast_ref::<String>() {
+        s.clone()
+    } else {
+        "<non-string panic payload>".to_string()
+    }
+}
+
+fn guard<T>(f: impl FnOnce() -> T) -> Result<T, String> {
+    catch_unwind(AssertUnwindSafe(f)).map_err(panic_msg)
+}
+
+fn bad(rep: &mut Report, group: &str, entry: &str, class: &str, tags: &[&str], detail: String, case: J) {
+    rep.fail(Failure {
+        panel: group.to_string(),
+        entry: entry.to_string(),
+        class: class.to_string(),
+        tags: tags.iter().map(|s| s.to_string()).collect(),
+        detail,
+        case,
+    });
+}
+
+/// book-keeping for one checked input of a small table
+fn tick(rep: &mut Report, group: &str, id: u64, input: u64) {
+    rep.eval(group);
+    rep.nontrivial(h64(&[id, input]));
+    rep.count("conversions_checked", 1);
+}
+
+// ------------------------------------------------------------------------------------------------
+// part A: small exhaustive tables
+// ------------------------------------------------------------------------------------------------
+
+fn color_u8(rep: &mut Report) {
+    for v in 0..=255u8 {
+        tick(rep, "Color", 1, v as u64);
+        let r = guard(|| Color::from(v));
+        let case = J::obj().set("function", "Color::from(u8)").set("input", v);
+        match (v, r) {
+            (0, Ok(Color::Black)) | (1, Ok(Color::White)) => {}
+            (0 | 1, Ok(c)) => bad(rep, "Color", "From<u8>", "Color<-u8", &["decode"], format!("Color::from({}u8) = {:?}", v, c), case),
+            (0 | 1, Err(m)) => {
+                rep.count("panics_caught", 1);
+                bad(rep, "Color", "From<u8>", "Color<-u8", &["panic"], format!("Color::from({}u8) panicked: {}", v, m), case)
+            }
+            (_, Ok(c)) => bad(
+                rep,
+                "Color",
+                "From<u8>",
+                "Color<-u8",
+                &["accepts-invalid"],
+                format!("Color::from({}u8) = {:?}; bytes other than 0 and 1 are documented to be rejected", v, c),
+                case,
+            ),
+            (_, Err(_)) => {
+                rep.count("panics_caught", 1);
+                rep.count("documented_rejections_observed", 1);
+            }
+        }
+    }
+    for (i, &c) in BW.iter().enumerate() {
+        let name = bw_name(c);
+        let case = J::obj().set("colour", name);
+        tick(rep, "Color", 2, i as u64);
+        match guard(|| (c.get_bit_value(), c.get_byte_value(), c.inverse())) {
+            Err(m) => {
+                rep.count("panics_caught", 1);
+                bad(rep, "Color", "get_bit_value/get_byte_value/inverse", "Color::get_bit_value", &["panic"], format!("Color::{} accessors panicked: {}", name, m), case)
+            }
+            Ok((bit, byte, inv)) => {
+                let want_bit = i as u8; // Black = 0, White = 1
+                if bit != want_bit {
+                    bad(rep, "Color", "get_bit_value", "Color::get_bit_value", &["encoding", name], format!("Color::{}.get_bit_value() = {}, documented {}", name, bit, want_bit), case.clone());
+                }
+                let want_byte = if i == 1 { 0xffu8 } else { 0x00 };
+                if byte != want_byte {
+                    bad(rep, "Color", "get_byte_value", "Color::get_byte_value", &["encoding", name], format!("Color::{}.get_byte_value() = {:#04x}, expected {:#04x}", name, byte, want_byte), case.clone());
+                }
+                if bit <= 1 && byte != bit.wrapping_mul(0xff) {
+                    bad(rep, "Color", "get_byte_value", "Color::get_byte_value", &["byte!=8*bit", name], format!("Color::{}: byte value {:#04x} is not eight copies of bit value {}", name, byte, bit), case.clone());
+                }
+                let want_inv = BW[1 - i];
+                if inv != want_inv {
+                    bad(rep, "Color", "inverse", "Color::inverse", &["table", name], format!("Color::{}.inverse() = {:?}, expected {:?}", name, inv, want_inv), case.clone());
+                }
+                if let Ok(back) = guard(|| inv.inverse()) {
+                    if back != c {
+                        bad(rep, "Color", "inverse", "Color::inverse", &["involution", name], format!("Color::{}.inverse().inverse() = {:?}", name, back), case.clone());
+                    }
+                }
+                // bit -> colour round trip
+                match guard(|| Color::from(bit)) {
+                    Ok(back) if back == c => {}
+                    Ok(back) => bad(rep, "Color", "From<u8>/get_bit_value", "Color<->u8", &["round-trip"], format!("Color::from(Color::{}.get_bit_value()) = {:?}", name, back), case.clone()),
+                    Err(m) => bad(rep, "Color", "From<u8>/get_bit_value", "Color<->u8", &["round-trip", "panic"], format!("Color::from(Color::{}.get_bit_value()) panicked: {}", name, m), case.clone()),
+                }
+                rep.sample(J::obj().set("colour", format!("Color::{}", name)).set("bit", bit).set("byte", byte).set("inverse", bw_name(inv)));
+            }
+        }
+    }
+}
+
+fn tricolor_values(rep: &mut Report) {
+    for (i, &c) in TRI.iter().enumerate() {
+        let name = tri_name(c);
+        tick(rep, "TriColor", 3, i as u64);
+        let case = J::obj().set("colour", name);
+        match guard(|| (c.get_bit_value(), c.get_byte_value())) {
+            Err(m) => {
+                rep.count("panics_caught", 1);
+                bad(rep, "TriColor", "get_bit_value/get_byte_value", "TriColor::get_bit_value", &["panic"], format!("TriColor::{} accessors panicked: {}", name, m), case)
+            }
+            Ok((bit, byte)) => {
+                // documented: white plane value; Black -> 0, White -> 1. Chromatic: only consistency is demanded.
+                if i < 2 && bit != i as u8 {
+                    bad(rep, "TriColor", "get_bit_value", "TriColor::get_bit_value", &["encoding", name], format!("TriColor::{}.get_bit_value() = {}, expected {}", name, bit, i), case.clone());
+                }
+                if i < 2 && byte != [0x00u8, 0xff][i] {
+                    bad(rep, "TriColor", "get_byte_value", "TriColor::get_byte_value", &["encoding", name], format!("TriColor::{}.get_byte_value() = {:#04x}", name, byte), case.clone());
+                }
+                if bit > 1 || byte != bit.wrapping_mul(0xff) {
+                    bad(rep, "TriColor", "get_byte_value", "TriColor::get_byte_value", &["byte!=8*bit", name], format!("TriColor::{}: byte value {:#04x} is not eight copies of bit value {}", name, byte, bit), case.clone());
+                }
+            }
+        }
+    }
+}
+
+fn octcolor_nibbles(rep: &mut Report) {
+    for (i, &c) in OCT.iter().enumerate() {
+        tick(rep, "OctColor", 4, i as u64);
+        let case = J::obj().set("colour", OCT_NAME[i]);
+        match guard(|| (c.get_nibble(), c.rgb())) {
+            Err(m) => {
+                rep.count("panics_caught", 1);
+                bad(rep, "OctColor", "get_nibble/rgb", "OctColor::get_nibble", &["panic"], format!("OctColor::{} accessors panicked: {}", OCT_NAME[i], m), case)
+            }
+            Ok((n, rgb)) => {
+                if n != i as u8 {
+                    bad(rep, "OctColor", "get_nibble", "OctColor::get_nibble", &["encoding", OCT_NAME[i]], format!("OctColor::{}.get_nibble() = {:#x}, panel code is {:#x}", OCT_NAME[i], n, i), case.clone());
+                }
+                if rgb != PAL[i] {
+                    bad(rep, "OctColor", "rgb", "OctColor::rgb", &["palette", OCT_NAME[i]], format!("OctColor::{}.rgb() = {:?}, palette entry is {:?}", OCT_NAME[i], rgb, PAL[i]), case.clone());
+                }
+            }
+        }
+    }
+    // from_nibble over all 256 u8 (documented: lower four bits are taken)
+    for v in 0..=255u8 {
+        tick(rep, "OctColor", 5, v as u64);
+        let n = (v & 0x0f) as usize;
+        let case = J::obj().set("function", "OctColor::from_nibble").set("input", v);
+        let hi = if v > 0x0f { "high-bits-set" } else { "high-bits-clear" };
+        match guard(|| OctColor::from_nibble(v)) {
+            Err(m) => {
+                rep.count("panics_caught", 1);
+                bad(rep, "OctColor", "from_nibble", "OctColor::from_nibble", &["panic", hi], format!("OctColor::from_nibble({:#04x}) panicked: {}", v, m), case)
+            }
+            Ok(Ok(c)) => {
+                if n >= 8 {
+                    bad(rep, "OctColor", "from_nibble", "OctColor::from_nibble", &["accepts-invalid", hi], format!("OctColor::from_nibble({:#04x}) = Ok({:?}) for an undefined code", v, c), case);
+                } else if oct_idx(c) != n {
+                    bad(rep, "OctColor", "from_nibble", "OctColor::from_nibble", &["decode", hi, OCT_NAME[n]], format!("OctColor::from_nibble({:#04x}) = {:?}, code {:#x} is {}", v, c, n, OCT_NAME[n]), case);
+                }
+            }
+            Ok(Err(_)) => {
+                if n < 8 {
+                    bad(rep, "OctColor", "from_nibble", "OctColor::from_nibble", &["rejects-valid", hi, OCT_NAME[n]], format!("OctColor::from_nibble({:#04x}) = Err for defined code {:#x}", v, n), case);
+                } else {
+                    rep.count("documented_rejections_observed", 1);
+                }
+            }
+        }
+    }
+    // 64 pairs: packed byte and round trip
+    for a in 0..8usize {
+        for b in 0..8usize {
+            tick(rep, "OctColor", 6, (a * 8 + b) as u64);
+            let case = J::obj().set("high", OCT_NAME[a]).set("low", OCT_NAME[b]);
+            match guard(|| {
+                let byte = OctColor::colors_byte(OCT[a], OCT[b]);
+                (byte, OctColor::split_byte(byte))
+            }) {
+                Err(m) => {
+                    rep.count("panics_caught", 1);
+                    bad(rep, "OctColor", "colors_byte/split_byte", "OctColor::colors_byte", &["panic"], format!("colors_byte/split_byte({}, {}) panicked: {}", OCT_NAME[a], OCT_NAME[b], m), case)
+                }
+                Ok((byte, back)) => {
+                    let want = ((a as u8) << 4) | b as u8;
+                    if byte != want {
+                        bad(rep, "OctColor", "colors_byte", "OctColor::colors_byte", &["encoding"], format!("colors_byte({}, {}) = {:#04x}, expected {:#04x} (first pixel in the high nibble)", OCT_NAME[a], OCT_NAME[b], byte, want), case.clone());
+                    }
+                    match &back {
+                        Ok((x, y)) if oct_idx(*x) == a && oct_idx(*y) == b => {}
+                        other => bad(rep, "OctColor", "split_byte", "OctColor::split_byte", &["round-trip"], format!("split_byte(colors_byte({}, {})) = {:?}", OCT_NAME[a], OCT_NAME[b], other), case.clone()),
+                    }
+                    if a == 4 && b == 2 {
+                        rep.sample(J::obj().set("colors_byte", vec!["Red", "Green"]).set("byte", byte).set("split_back", format!("{:?}", back)));
+                    }
+                }
+            }
+        }
+    }
+    // split_byte over all 256 bytes
+    for v in 0..=255u8 {
+        tick(rep, "OctColor", 7, v as u64);
+        let (hi, lo) = ((v >> 4) as usize, (v & 15) as usize);
+        let case = J::obj().set("function", "OctColor::split_byte").set("input", v);
+        match guard(|| OctColor::split_byte(v)) {
+            Err(m) => {
+                rep.count("panics_caught", 1);
+                bad(rep, "OctColor", "split_byte", "OctColor::split_byte", &["panic"], format!("split_byte({:#04x}) panicked: {}", v, m), case)
+            }
+            Ok(Ok((x, y))) => {
+                if hi >= 8 || lo >= 8 {
+                    bad(rep, "OctColor", "split_byte", "OctColor::split_byte", &["accepts-invalid"], format!("split_byte({:#04x}) = Ok(({:?},{:?})) although a nibble is undefined", v, x, y), case);
+                } else if oct_idx(x) != hi || oct_idx(y) != lo {
+                    bad(rep, "OctColor", "split_byte", "OctColor::split_byte", &["decode"], format!("split_byte({:#04x}) = ({:?},{:?}), expected ({},{})", v, x, y, OCT_NAME[hi], OCT_NAME[lo]), case);
+                }
+            }
+            Ok(Err(_)) => {
+                if hi < 8 && lo < 8 {
+                    bad(rep, "OctColor", "split_byte", "OctColor::split_byte", &["rejects-valid"], format!("split_byte({:#04x}) = Err although both nibbles are defined", v), case);
+                } else {
+                    rep.count("documented_rejections_observed", 1);
+                }
+            }
+        }
+    }
+}
+
+fn raw_values(rep: &mut Report) {
+    // RawU1 <-> Color: the two directions must agree (which colour 0 means is left open)
+    for raw in 0..=1u8 {
+        tick(rep, "Color", 8, raw as u64);
+        let case = J::obj().set("raw", raw);
+        match guard(|| {
+            let c = Color::from(RawU1::new(raw));
+            let back: RawU1 = c.into();
+            (c, back.into_inner())
+        }) {
+            Err(m) => {
+                rep.count("panics_caught", 1);
+                bad(rep, "Color", "From<RawU1>/Into<RawU1>", "Color<->RawU1", &["panic"], format!("RawU1({}) -> Color -> RawU1 panicked: {}", raw, m), case)
+            }
+            Ok((c, back)) => {
+                if back != raw {
+                    bad(rep, "Color", "From<RawU1>/Into<RawU1>", "Color<->RawU1", &["round-trip"], format!("RawU1({}) -> Color::{} -> RawU1({})", raw, bw_name(c), back), case);
+                }
+            }
+        }
+    }
+    for (i, &c) in BW.iter().enumerate() {
+        tick(rep, "Color", 9, i as u64);
+        let case = J::obj().set("colour", bw_name(c));
+        match guard(|| {
+            let raw: RawU1 = c.into();
+            (raw.into_inner(), Color::from(raw))
+        }) {
+            Err(m) => {
+                rep.count("panics_caught", 1);
+                bad(rep, "Color", "From<RawU1>/Into<RawU1>", "Color<->RawU1", &["panic"], format!("Color::{} -> RawU1 -> Color panicked: {}", bw_name(c), m), case)
+            }
+            Ok((raw, back)) => {
+                if back != c {
+                    bad(rep, "Color", "From<RawU1>/Into<RawU1>", "Color<->RawU1", &["round-trip"], format!("Color::{} -> RawU1({}) -> Color::{}", bw_name(c), raw, bw_name(back)), case);
+                }
+                rep.sample(J::obj().set("colour", format!("Color::{}", bw_name(c))).set("into_RawU1", raw).set("back_from_RawU1", bw_name(back)));
+            }
+        }
+    }
+    // RawU2 -> TriColor is total
+    for raw in 0..=3u8 {
+        tick(rep, "TriColor", 10, raw as u64);
+        match guard(|| TriColor::from(RawU2::new(raw))) {
+            Err(m) => {
+                rep.count("panics_caught", 1);
+                bad(rep, "TriColor", "From<RawU2>", "TriColor<-RawU2", &["panic"], format!("TriColor::from(RawU2({})) panicked: {}", raw, m), J::obj().set("raw", raw))
+            }
+            Ok(_) => {}
+        }
+    }
+    // RawU4 -> OctColor must not panic; defined codes decode to their colour
+    for raw in 0..=15u8 {
+        tick(rep, "OctColor", 11, raw as u64);
+        let case = J::obj().set("raw", raw);
+        match guard(|| OctColor::from(RawU4::new(raw))) {
+            Err(m) => {
+                rep.count("panics_caught", 1);
+                let region = if raw >= 8 { "raw>=8" } else { "raw<8" };
+                bad(rep, "OctColor", "From<RawU4>", "OctColor<-RawU4", &["panic", region], format!("OctColor::from(RawU4({})) panicked: {}", raw, m), case)
+            }
+            Ok(c) => {
+                if raw < 8 && oct_idx(c) != raw as usize {
+                    bad(rep, "OctColor", "From<RawU4>", "OctColor<-RawU4", &["round-trip"], format!("OctColor::from(RawU4({})) = {:?}, but code {} is {}", raw, c, raw, OCT_NAME[raw as usize]), case);
+                }
+            }
+        }
+    }
+}
+
+fn bitmasks(rep: &mut Report) {
+    let positions: Vec<u32> = (0..24u32).chain([0xffff_fff8, 0xffff_fffd, u32::MAX]).collect();
+    for bwrbit in [false, true] {
+        let bt = if bwrbit { "bwrbit=true" } else { "bwrbit=false" };
+        // Color and TriColor: one bit per pixel per plane, MSB first
+        for (i, &c) in BW.iter().enumerate() {
+            let name = bw_name(c);
+            let mut fill = 0u8;
+            for &pos in &positions {
+                tick(rep, "Color", 12, (pos as u64) << 8 | (i as u64) << 1 | bwrbit as u64);
+                let case = J::obj().set("colour", name).set("bwrbit", bwrbit).set("pos", pos);
+                let bit = 0x80u8 >> (pos % 8);
+                match guard(|| c.bitmask(bwrbit, pos)) {
+                    Err(m) => {
+                        rep.count("panics_caught", 1);
+                        bad(rep, "Color", "bitmask", "Color::bitmask", &["panic"], format!("Color::{}.bitmask({}, {}) panicked: {}", name, bwrbit, pos, m), case)
+                    }
+                    Ok((mask, bits)) => {
+                        if mask != !bit {
+                            bad(rep, "Color", "bitmask", "Color::bitmask", &["mask"], format!("Color::{}.bitmask({}, {}).0 = {:#04x}, pixel {} of a byte is bit {:#04x}", name, bwrbit, pos, mask, pos % 8, bit), case.clone());
+                        }
+                        if bits >> 8 != 0 || (bits as u8) & mask != 0 {
+                            bad(rep, "Color", "bitmask", "Color::bitmask", &["bits-outside-pixel"], format!("Color::{}.bitmask({}, {}) = ({:#04x}, {:#06x}): value bits outside !mask", name, bwrbit, pos, mask, bits), case.clone());
+                        }
+                        let want = if i == 1 { bit as u16 } else { 0 };
+                        if bits != want {
+                            bad(rep, "Color", "bitmask", "Color::bitmask", &["encoding", name], format!("Color::{}.bitmask({}, {}).1 = {:#06x}, expected {:#06x}", name, bwrbit, pos, bits, want), case.clone());
+                        }
+                        if pos < 8 {
+                            fill |= bits as u8;
+                        }
+                    }
+                }
+            }
+            if let Ok(byte) = guard(|| c.get_byte_value()) {
+                if fill != byte {
+                    bad(rep, "Color", "bitmask/get_byte_value", "Color::bitmask", &["fill-value", name], format!("OR of Color::{}.bitmask(_, 0..8) bits = {:#04x} but get_byte_value() = {:#04x}", name, fill, byte), J::obj().set("colour", name).set("bwrbit", bwrbit));
+                }
+            }
+        }
+        for (i, &c) in TRI.iter().enumerate() {
+            let name = tri_name(c);
+            let (mut fill_bw, mut fill_chr) = (0u8, 0u8);
+            for &pos in &positions {
+                tick(rep, "TriColor", 13, (pos as u64) << 8 | (i as u64) << 1 | bwrbit as u64);
+                let case = J::obj().set("colour", name).set("bwrbit", bwrbit).set("pos", pos);
+                let bit = 0x80u8 >> (pos % 8);
+                match guard(|| c.bitmask(bwrbit, pos)) {
+                    Err(m) => {
+                        rep.count("panics_caught", 1);
+                        bad(rep, "TriColor", "bitmask", "TriColor::bitmask", &["panic"], format!("TriColor::{}.bitmask({}, {}) panicked: {}", name, bwrbit, pos, m), case)
+                    }
+                    Ok((mask, bits)) => {
+                        let (bw, chr) = (bits as u8, (bits >> 8) as u8);
+                        if mask != !bit {
+                            bad(rep, "TriColor", "bitmask", "TriColor::bitmask", &["mask"], format!("TriColor::{}.bitmask({}, {}).0 = {:#04x}, pixel {} of a byte is bit {:#04x}", name, bwrbit, pos, mask, pos % 8, bit), case.clone());
+                        }
+                        if bw & mask != 0 || chr & mask != 0 {
+                            bad(rep, "TriColor", "bitmask", "TriColor::bitmask", &["bits-outside-pixel"], format!("TriColor::{}.bitmask({}, {}) = ({:#04x}, {:#06x}): value bits outside !mask", name, bwrbit, pos, mask, bits), case.clone());
+                        }
+                        // Display doc + test_tricolor_bitmask: low byte = b/w plane, high byte = chromatic plane;
+                        // White = bw 1 / chr 0, Black = 0 / 0, Chromatic = chr 1 and bw (0 if bwrbit else 1)
+                        let want_bw = match i {
+                            0 => 0,
+                            1 => bit,
+                            _ => {
+                                if bwrbit {
+                                    0
+                                } else {
+                                    bit
+                                }
+                            }
+                        };
+                        let want_chr = if i == 2 { bit } else { 0 };
+                        if bw != want_bw {
+                            bad(rep, "TriColor", "bitmask", "TriColor::bitmask", &["encoding", name, bt, "plane=bw"], format!("TriColor::{}.bitmask({}, {}): b/w plane bits {:#04x}, expected {:#04x}", name, bwrbit, pos, bw, want_bw), case.clone());
+                        }
+                        if chr != want_chr {
+                            bad(rep, "TriColor", "bitmask", "TriColor::bitmask", &["encoding", name, bt, "plane=chr"], format!("TriColor::{}.bitmask({}, {}): chromatic plane bits {:#04x}, expected {:#04x}", name, bwrbit, pos, chr, want_chr), case.clone());
+                        }
+                        if pos < 8 {
+                            fill_bw |= bw;
+                            fill_chr |= chr;
+                        }
+                    }
+                }
+            }
+            let case = J::obj().set("colour", name).set("bwrbit", bwrbit);
+            if let Ok(byte) = guard(|| c.get_byte_value()) {
+                if i < 2 {
+                    if fill_bw != byte {
+                        bad(rep, "TriColor", "bitmask/get_byte_value", "TriColor::bitmask", &["fill-value", name, "plane=bw"], format!("OR of TriColor::{}.bitmask({}, 0..8) b/w bits = {:#04x} but get_byte_value() = {:#04x}", name, bwrbit, fill_bw, byte), case.clone());
+                    }
+                } else {
+                    // the b/w plane value under a chromatic pixel is a don't-care chosen by bwrbit: only uniformity is demanded
+                    if fill_bw != 0x00 && fill_bw != 0xff {
+                        bad(rep, "TriColor", "bitmask", "TriColor::bitmask", &["fill-value", name, "plane=bw", "not-uniform"], format!("OR of TriColor::Chromatic.bitmask({}, 0..8) b/w bits = {:#04x}", bwrbit, fill_bw), case.clone());
+                    }
+                    if fill_bw != byte {
+                        rep.count("observed_chromatic_bw_fill_differs_from_get_byte_value", 1);
+                        rep.note("observation (not a failure): for bwrbit=false TriColor::Chromatic.bitmask sets the b/w plane bit (fill 0xff) while TriColor::Chromatic.get_byte_value() is 0x00; the statement leaves the b/w value under a chromatic pixel open");
+                    }
+                }
+            }
+            let want_chr = if i == 2 { 0xffu8 } else { 0 };
+            if fill_chr != want_chr {
+                bad(rep, "TriColor", "bitmask", "TriColor::bitmask", &["fill-value", name, "plane=chr"], format!("OR of TriColor::{}.bitmask({}, 0..8) chromatic bits = {:#04x}, expected {:#04x}", name, bwrbit, fill_chr, want_chr), case.clone());
+            }
+        }
+        // OctColor: 4 bits per pixel, even pixel in the high nibble
+        for (i, &c) in OCT.iter().enumerate() {
+            let name = OCT_NAME[i];
+            let mut fill = 0u8;
+            for &pos in &positions {
+                tick(rep, "OctColor", 14, (pos as u64) << 8 | (i as u64) << 1 | bwrbit as u64);
+                let case = J::obj().set("colour", name).set("bwrbit", bwrbit).set("pos", pos);
+                let px = if pos % 2 == 0 { 0xF0u8 } else { 0x0F };
+                let half = if pos % 2 == 0 { "even-pixel" } else { "odd-pixel" };
+                match guard(|| c.bitmask(bwrbit, pos)) {
+                    Err(m) => {
+                        rep.count("panics_caught", 1);
+                        bad(rep, "OctColor", "bitmask", "OctColor::bitmask", &["panic"], format!("OctColor::{}.bitmask({}, {}) panicked: {}", name, bwrbit, pos, m), case)
+                    }
+                    Ok((mask, bits)) => {
+                        if mask != !px {
+                            bad(rep, "OctColor", "bitmask", "OctColor::bitmask", &["mask", half], format!("OctColor::{}.bitmask({}, {}).0 = {:#04x}, pixel occupies {:#04x}", name, bwrbit, pos, mask, px), case.clone());
+                        }
+                        if bits >> 8 != 0 || (bits as u8) & mask != 0 {
+                            bad(rep, "OctColor", "bitmask", "OctColor::bitmask", &["bits-outside-pixel", half], format!("OctColor::{}.bitmask({}, {}) = ({:#04x}, {:#06x}): value bits outside !mask", name, bwrbit, pos, mask, bits), case.clone());
+                        }
+                        let want = if pos % 2 == 0 { (i as u16) << 4 } else { i as u16 };
+                        if bits != want {
+                            bad(rep, "OctColor", "bitmask", "OctColor::bitmask", &["encoding", half], format!("OctColor::{}.bitmask({}, {}).1 = {:#06x}, expected {:#06x}", name, bwrbit, pos, bits, want), case.clone());
+                        }
+                        if pos < 2 {
+                            fill |= bits as u8;
+                        }
+                        if i == 6 && pos == 3 && !bwrbit {
+                            rep.sample(J::obj().set("bitmask", "OctColor::Orange").set("pos", pos).set("mask", mask).set("bits", bits as u32));
+                        }
+                    }
+                }
+            }
+            if let Ok(byte) = guard(|| OctColor::colors_byte(c, c)) {
+                if fill != byte {
+                    bad(rep, "OctColor", "bitmask/colors_byte", "OctColor::bitmask", &["fill-value"], format!("OR of OctColor::{}.bitmask(_, 0..2) bits = {:#04x} but colors_byte(c, c) = {:#04x}", name, fill, byte), J::obj().set("colour", name).set("bwrbit", bwrbit));
+                }
+            }
+        }
+    }
+}
+
+fn small_conversions(rep: &mut Report) {
+    // BinaryColor: On -> Black, Off -> White for all three types
+    for (k, on) in [(0u64, true), (1, false)] {
+        let b = if on { BinaryColor::On } else { BinaryColor::Off };
+        let bn = if on { "On" } else { "Off" };
+        let case = J::obj().set("binary", bn);
+        tick(rep, "Color", 15, k);
+        match guard(|| Color::from(b)) {
+            Ok(c) if c == BW[if on { 0 } else { 1 }] => {}
+            Ok(c) => bad(rep, "Color", "From<BinaryColor>", "Color<-BinaryColor", &["table"], format!("Color::from(BinaryColor::{}) = {:?}", bn, c), case.clone()),
+            Err(m) => bad(rep, "Color", "From<BinaryColor>", "Color<-BinaryColor", &["panic"], format!("Color::from(BinaryColor::{}) panicked: {}", bn, m), case.clone()),
+        }
+        tick(rep, "TriColor", 15, k);
+        match guard(|| TriColor::from(b)) {
+            Ok(c) if c == TRI[if on { 0 } else { 1 }] => {}
+            Ok(c) => bad(rep, "TriColor", "From<BinaryColor>", "TriColor<-BinaryColor", &["table"], format!("TriColor::from(BinaryColor::{}) = {:?}", bn, c), case.clone()),
+            Err(m) => bad(rep, "TriColor", "From<BinaryColor>", "TriColor<-BinaryColor", &["panic"], format!("TriColor::from(BinaryColor::{}) panicked: {}", bn, m), case.clone()),
+        }
+        tick(rep, "OctColor", 15, k);
+        match guard(|| OctColor::from(b)) {
+            Ok(c) if oct_idx(c) == if on { 0 } else { 1 } => {}
+            Ok(c) => bad(rep, "OctColor", "From<BinaryColor>", "OctColor<-BinaryColor", &["table"], format!("OctColor::from(BinaryColor::{}) = {:?}", bn, c), case.clone()),
+            Err(m) => bad(rep, "OctColor", "From<BinaryColor>", "OctColor<-BinaryColor", &["panic"], format!("OctColor::from(BinaryColor::{}) panicked: {}", bn, m), case.clone()),
+        }
+    }
+    // Color -> Rgb*: black and white map to themselves, and back
+    for (i, &c) in BW.iter().enumerate() {
+        let name = bw_name(c);
+        let case = J::obj().set("colour", name);
+        tick(rep, "Color", 16, i as u64);
+        match guard(|| {
+            let a: Rgb888 = c.into();
+            let b: Rgb565 = c.into();
+            let d: Rgb555 = c.into();
+            ((a.r(), a.g(), a.b()), (b.r(), b.g(), b.b()), (d.r(), d.g(), d.b()), Color::from(a), Color::from(b), Color::from(d))
+        }) {
+            Err(m) => {
+                rep.count("panics_caught", 1);
+                bad(rep, "Color", "Into<Rgb888/Rgb565/Rgb555>", "Rgb888<-Color", &["panic"], format!("Color::{} -> Rgb* panicked: {}", name, m), case)
+            }
+            Ok((a, b, d, ba, bb, bd)) => {
+                let want = |m: (u8, u8, u8)| if i == 1 { m } else { (0, 0, 0) };
+                if a != want((255, 255, 255)) {
+                    bad(rep, "Color", "Into<Rgb888>", "Rgb888<-Color", &["fixed-point", name], format!("Rgb888::from(Color::{}) = {:?}", name, a), case.clone());
+                }
+                if b != want((31, 63, 31)) {
+                    bad(rep, "Color", "Into<Rgb565>", "Rgb565<-Color", &["fixed-point", name], format!("Rgb565::from(Color::{}) = {:?}", name, b), case.clone());
+                }
+                if d != want((31, 31, 31)) {
+                    bad(rep, "Color", "Into<Rgb555>", "Rgb555<-Color", &["fixed-point", name], format!("Rgb555::from(Color::{}) = {:?}", name, d), case.clone());
+                }
+                for (back, ty, cl) in [(ba, "Rgb888", "Color<->Rgb888"), (bb, "Rgb565", "Color<->Rgb565"), (bd, "Rgb555", "Color<->Rgb555")] {
+                    if back != c {
+                        bad(rep, "Color", "From<Rgb>/Into<Rgb>", cl, &["round-trip", name], format!("Color::{} -> {} -> Color::{}", name, ty, bw_name(back)), case.clone());
+                    }
+                }
+            }
+        }
+    }
+    // TriColor -> Rgb888: black/white fixed points, chromatic anything but total
+    for (i, &c) in TRI.iter().enumerate() {
+        let name = tri_name(c);
+        let case = J::obj().set("colour", name);
+        tick(rep, "TriColor", 17, i as u64);
+        match guard(|| {
+            let a: Rgb888 = c.into();
+            ((a.r(), a.g(), a.b()), TriColor::from(a))
+        }) {
+            Err(m) => {
+                rep.count("panics_caught", 1);
+                bad(rep, "TriColor", "Into<Rgb888>", "Rgb888<-TriColor", &["panic"], format!("TriColor::{} -> Rgb888 panicked: {}", name, m), case)
+            }
+            Ok((a, back)) => {
+                if i < 2 {
+                    let want = if i == 1 { (255, 255, 255) } else { (0, 0, 0) };
+                    if a != want {
+                        bad(rep, "TriColor", "Into<Rgb888>", "Rgb888<-TriColor", &["fixed-point", name], format!("Rgb888::from(TriColor::{}) = {:?}", name, a), case.clone());
+                    }
+                    if back != c {
+                        bad(rep, "TriColor", "From<Rgb888>/Into<Rgb888>", "TriColor<->Rgb888", &["round-trip", name], format!("TriColor::{} -> Rgb888 -> TriColor::{}", name, tri_name(back)), case.clone());
+                    }
+                }
+            }
+        }
+    }
+    // OctColor -> Rgb888 -> OctColor
+    for (i, &c) in OCT.iter().enumerate() {
+        let name = OCT_NAME[i];
+        let case = J::obj().set("colour", name);
+        tick(rep, "OctColor", 18, i as u64);
+        match guard(|| {
+            let a: Rgb888 = c.into();
+            ((a.r(), a.g(), a.b()), OctColor::from(a))
+        }) {
+            Err(m) => {
+                rep.count("panics_caught", 1);
+                bad(rep, "OctColor", "Into<Rgb888>", "Rgb888<-OctColor", &["panic"], format!("OctColor::{} -> Rgb888 panicked: {}", name, m), case)
+            }
+            Ok((a, back)) => {
+                if a != PAL[i] {
+                    bad(rep, "OctColor", "Into<Rgb888>", "Rgb888<-OctColor", &["palette", name], format!("Rgb888::from(OctColor::{}) = {:?}, palette entry is {:?}", name, a, PAL[i]), case.clone());
+                }
+                if oct_idx(back) != i {
+                    bad(rep, "OctColor", "From<Rgb888>/Into<Rgb888>", "OctColor<->Rgb888", &["round-trip", name], format!("OctColor::{} -> Rgb888{:?} -> OctColor::{:?}", name, a, back), case.clone());
+                }
+            }
+        }
+    }
+}
+
+// ------------------------------------------------------------------------------------------------
+// part B: RGB domains
+// ------------------------------------------------------------------------------------------------
+
+/// -1 = must be Black, +1 = must be White, 0 = either is acceptable.
+/// Three brightness definitions on channels normalised by their maxima, compared with 1/2 exactly:
+/// channel mean, Rec.601 luma, raw sum / maximal raw sum.
+fn bw_verdict(r: u64, g: u64, b: u64, rm: u64, gm: u64, bm: u64) -> i32 {
+    let den = rm * gm * bm;
+    let (rn, gn, bn) = (r * gm * bm, g * rm * bm, b * rm * gm);
+    let mean = (2 * (rn + gn + bn)).cmp(&(3 * den));
+    let luma = (2 * (299 * rn + 587 * gn + 114 * bn)).cmp(&(1000 * den));
+    let raw = (2 * (r + g + b)).cmp(&(rm + gm + bm));
+    use std::cmp::Ordering::*;
+    if mean == Greater && luma == Greater && raw == Greater {
+        1
+    } else if mean == Less && luma == Less && raw == Less {
+        -1
+    } else {
+        0
+    }
+}
+
+fn check_bw(rep: &mut Report, ty: &'static str, class: &'static str, entry: &'static str, r: u8, g: u8, b: u8, max: (u8, u8, u8), got: Result<Color, String>) {
+    let case = || J::obj().set("from", ty).set("r", r).set("g", g).set("b", b);
+    let got = match got {
+        Ok(c) => c,
+        Err(m) => {
+            rep.count("panics_caught", 1);
+            bad(rep, "Color", entry, class, &["panic"], format!("Color::from({}({},{},{})) panicked: {}", ty, r, g, b, m), case());
+            return;
+        }
+    };
+    if (r, g, b) == (0, 0, 0) || (r, g, b) == max {
+        let want = if (r, g, b) == max { Color::White } else { Color::Black };
+        if got != want {
+            bad(rep, "Color", entry, class, &["fixed-point", bw_name(want)], format!("Color::from({}({},{},{})) = {:?}", ty, r, g, b, got), case());
+        }
+        return;
+    }
+    let v = bw_verdict(r as u64, g as u64, b as u64, max.0 as u64, max.1 as u64, max.2 as u64);
+    if v > 0 && got != Color::White {
+        bad(
+            rep,
+            "Color",
+            entry,
+            class,
+            &["not-nearest", "expected-white"],
+            format!("Color::from({}({},{},{})) = Black although channel mean, Rec.601 luma and raw sum are all above half scale (maxima {:?})", ty, r, g, b, max),
+            case(),
+        );
+    } else if v < 0 && got != Color::Black {
+        bad(
+            rep,
+            "Color",
+            entry,
+            class,
+            &["not-nearest", "expected-black"],
+            format!("Color::from({}({},{},{})) = White although channel mean, Rec.601 luma and raw sum are all below half scale (maxima {:?})", ty, r, g, b, max),
+            case(),
+        );
+    }
+}
+
+fn rgb888_slice(rep: &mut Report, r: u8, gs: &[u8], bs: &[u8], dom: u64) {
+    let mut n = 0u64;
+    let mut decided = 0u64;
+    for &g in gs {
+        for &b in bs {
+            n += 1;
+            let p = Rgb888::new(r, g, b);
+            // OctColor
+            match guard(|| OctColor::from(p)) {
+                Err(m) => {
+                    rep.count("panics_caught", 1);
+                    bad(rep, "OctColor", "From<Rgb888>", "OctColor<-Rgb888", &["panic"], format!("OctColor::from(Rgb888({},{},{})) panicked: {}", r, g, b, m), J::obj().set("r", r).set("g", g).set("b", b));
+                }
+                Ok(c) => {
+                    let gi = oct_idx(c);
+                    let dist = |q: (u8, u8, u8)| {
+                        let d = |a: u8, b: u8| (a as i64 - b as i64) * (a as i64 - b as i64);
+                        d(q.0, r) + d(q.1, g) + d(q.2, b)
+                    };
+                    if let Some(e) = PAL.iter().position(|&q| q == (r, g, b)) {
+                        if gi != e {
+                            bad(
+                                rep,
+                                "OctColor",
+                                "From<Rgb888>",
+                                "OctColor<-Rgb888",
+                                &["exact-palette-hit", OCT_NAME[e]],
+                                format!("OctColor::from(Rgb888({},{},{})) = {} although the value is exactly {}'s palette entry", r, g, b, OCT_NAME[gi], OCT_NAME[e]),
+                                J::obj().set("r", r).set("g", g).set("b", b),
+                            );
+                        }
+                    } else {
+                        let dmin = PAL.iter().map(|&q| dist(q)).min().unwrap();
+                        if dist(PAL[gi]) != dmin {
+                            let best = PAL.iter().position(|&q| dist(q) == dmin).unwrap();
+                            bad(
+                                rep,
+                                "OctColor",
+                                "From<Rgb888>",
+                                "OctColor<-Rgb888",
+                                &["not-nearest", OCT_NAME[gi]],
+                                format!(
+                                    "OctColor::from(Rgb888({},{},{})) = {} at squared distance {}, but {} is at {}",
+                                    r,
+                                    g,
+                                    b,
+                                    OCT_NAME[gi],
+                                    dist(PAL[gi]),
+                                    OCT_NAME[best],
+                                    dmin
+                                ),
+                                J::obj().set("r", r).set("g", g).set("b", b),
+                            );
+                        }
+                    }
+                }
+            }
+            // Color
+            if bw_verdict(r as u64, g as u64, b as u64, 255, 255, 255) != 0 {
+                decided += 1;
+            }
+            check_bw(rep, "Rgb888", "Color<-Rgb888", "From<Rgb888>", r, g, b, (255, 255, 255), guard(|| Color::from(p)));
+            // TriColor: only the black / white fixed points are constrained
+            match guard(|| TriColor::from(p)) {
+                Err(m) => {
+                    rep.count("panics_caught", 1);
+                    bad(rep, "TriColor", "From<Rgb888>", "TriColor<-Rgb888", &["panic"], format!("TriColor::from(Rgb888({},{},{})) panicked: {}", r, g, b, m), J::obj().set("r", r).set("g", g).set("b", b));
+                }
+                Ok(c) => {
+                    let want = match (r, g, b) {
+                        (0, 0, 0) => Some(TriColor::Black),
+                        (255, 255, 255) => Some(TriColor::White),
+                        _ => None,
+                    };
+                    if let Some(w) = want {
+                        if c != w {
+                            bad(rep, "TriColor", "From<Rgb888>", "TriColor<-Rgb888", &["fixed-point", tri_name(w)], format!("TriColor::from(Rgb888({},{},{})) = {:?}", r, g, b, c), J::obj().set("r", r).set("g", g).set("b", b));
+                        }
+                    }
+                }
+            }
+        }
+    }
+    for grp in ["OctColor", "Color", "TriColor"] {
+        *rep.per_panel.entry(grp.to_string()).or_insert(0) += n;
+    }
+    rep.evaluations += 3 * n;
+    rep.count("conversions_checked", 3 * n);
+    rep.count("rgb888_values_checked", n);
+    rep.count("rgb888_to_color_values_with_forced_answer", decided);
+    rep.count("nontrivial_items", 3 * n);
+    rep.nontrivial(h64(&[20, dom, r as u64]));
+}
+
+fn rgb565_slice(rep: &mut Report, r: u8) {
+    let mut n = 0u64;
+    let mut decided = 0u64;
+    for g in 0..64u8 {
+        for b in 0..32u8 {
+            n += 1;
+            let p = Rgb565::new(r, g, b);
+            if bw_verdict(r as u64, g as u64, b as u64, 31, 63, 31) != 0 {
+                decided += 1;
+            }
+            check_bw(rep, "Rgb565", "Color<-Rgb565", "From<Rgb565>", r, g, b, (31, 63, 31), guard(|| Color::from(p)));
+        }
+    }
+    *rep.per_panel.entry("Color".to_string()).or_insert(0) += n;
+    rep.evaluations += n;
+    rep.count("conversions_checked", n);
+    rep.count("rgb565_values_checked", n);
+    rep.count("rgb565_to_color_values_with_forced_answer", decided);
+    rep.count("nontrivial_items", n);
+    rep.nontrivial(h64(&[21, r as u64]));
+}
+
+fn rgb555_slice(rep: &mut Report, r: u8) {
+    let mut n = 0u64;
+    let mut decided = 0u64;
+    for g in 0..32u8 {
+        for b in 0..32u8 {
+            n += 1;
+            let p = Rgb555::new(r, g, b);
+            if bw_verdict(r as u64, g as u64, b as u64, 31, 31, 31) != 0 {
+                decided += 1;
+            }
+            check_bw(rep, "Rgb555", "Color<-Rgb555", "From<Rgb555>", r, g, b, (31, 31, 31), guard(|| Color::from(p)));
+        }
+    }
+    *rep.per_panel.entry("Color".to_string()).or_insert(0) += n;
+    rep.evaluations += n;
+    rep.count("conversions_checked", n);
+    rep.count("rgb555_values_checked", n);
+    rep.count("rgb555_to_color_values_with_forced_answer", decided);
+    rep.count("nontrivial_items", n);
+    rep.nontrivial(h64(&[22, r as u64]));
+}
+
+enum Case {
+    Tables,
+    /// (r, domain): domain 0 = all values, 1 = 64-level lattice, 2 = boundary set
+    R888(u8, u8),
+    R565(u8),
+    R555(u8),
+}
+
+pub fn run(ctx: &Ctx) -> Report {
+    let miri = ctx.mode == "miri";
+    let all: Vec<u8> = (0..=255u8).collect();
+    let lattice: Vec<u8> = (0..64u32).map(|v| ((v * 255 + 31) / 63) as u8).collect();
+    let boundary: Vec<u8> = vec![0, 1, 0x7f, 0x80, 0x81, 0xfe, 0xff];
+    let mut cases = vec![Case::Tables];
+    if ctx.tier_thorough && !miri {
+        for r in 0..=255u8 {
+            cases.push(Case::R888(r, 0));
+        }
+    } else {
+        if !miri {
+            for &r in &lattice {
+                cases.push(Case::R888(r, 1));
+            }
+        }
+        for &r in &boundary {
+            cases.push(Case::R888(r, 2));
+        }
+    }
+    let step = if miri { 8 } else { 1 };
+    for r in (0..32u8).step_by(step) {
+        cases.push(Case::R565(r));
+        cases.push(Case::R555(r));
+    }
+    let threads = if miri { 1 } else { ctx.threads };
+    let mut rep = par_run(&cases, threads, |_i, c, rep| match c {
+        Case::Tables => {
+            color_u8(rep);
+            tricolor_values(rep);
+            octcolor_nibbles(rep);
+            raw_values(rep);
+            bitmasks(rep);
+            small_conversions(rep);
+        }
+        Case::R888(r, 0) => rgb888_slice(rep, *r, &all, &all, 0),
+        Case::R888(r, 1) => rgb888_slice(rep, *r, &lattice, &lattice, 1),
+        Case::R888(r, _) => rgb888_slice(rep, *r, &boundary, &boundary, 2),
+        Case::R565(r) => rgb565_slice(rep, *r),
+        Case::R555(r) => rgb555_slice(rep, *r),
+    });
+    // a few written-out RGB cases
+    for (r, g, b) in [(255u8, 128u8, 0u8), (200, 200, 10), (127, 127, 127), (129, 129, 129)] {
+        let p = Rgb888::new(r, g, b);
+        if let (Ok(o), Ok(c), Ok(t)) = (guard(|| OctColor::from(p)), guard(|| Color::from(p)), guard(|| TriColor::from(p))) {
+            rep.sample(J::obj().set("rgb888", vec![r, g, b]).set("OctColor", OCT_NAME[oct_idx(o)]).set("Color", bw_name(c)).set("TriColor", tri_name(t)).set("model_bw_verdict", bw_verdict(r as u64, g as u64, b as u64, 255, 255, 255)));
+        }
+    }
+    for (r, g, b) in [(31u8, 63u8, 30u8), (16, 32, 16), (3, 5, 2)] {
+        if let (Ok(a), Ok(c)) = (guard(|| Color::from(Rgb565::new(r, g, b))), guard(|| Color::from(Rgb555::new(r, g.min(31), b)))) {
+            rep.sample(J::obj().set("rgb565", vec![r, g, b]).set("Color_from_Rgb565", bw_name(a)).set("Color_from_Rgb555(g clipped to 31)", bw_name(c)).set("model_bw_verdict_565", bw_verdict(r as u64, g as u64, b as u64, 31, 63, 31)));
+        }
+    }
+    rep.note("small tables: every input is hashed into distinct_nontrivial; RGB domains: one hash per (conversion family, domain, red value) and the exact number of compared conversions in counters.nontrivial_items");
+    rep.note("Color<-RGB oracle: White required when channel mean, Rec.601 luma and raw-sum/max-sum (channels normalised by their maxima) are all > 1/2, Black when all < 1/2, either otherwise; black and white fixed points exact");
+    rep.note("OctColor<-Rgb888 oracle: exact palette entry -> that colour; otherwise any palette colour at minimal squared distance (ties accepted)");
+    rep.note("there is no From<Rgb565>/From<Rgb555> for TriColor or OctColor and no From<TriColor> for RawU2 / From<OctColor> for RawU4 in the pinned tree; only existing impls are exercised");
+    if ctx.tier_thorough && !miri {
+        rep.note("thorough: all 2^24 Rgb888 values, all 65536 Rgb565 and all 32768 Rgb555 values");
+    } else {
+        rep.note("quick: Rgb888 on a 64^3 lattice (levels round(v*255/63)) plus {0,1,0x7f,0x80,0x81,0xfe,0xff}^3; all Rgb565 and Rgb555 values");
+    }
+    rep
 }
